@@ -2,7 +2,7 @@
 and loop termination classification for the decode path."""
 from mirlite import callee, callee_res, ty_str, op_place
 from expr import show, walk, strip_ref
-from discharge import (CONTRACTED, INDEX, LEN_CALLS, SPLIT_AT, Lin, canon, len_of, make_prover)
+from discharge import (CONTRACTED, INDEX, LEN_CALLS, SPLIT_AT, Lin, canon, len_of, make_prover, split_first_parts, unq)
 
 ITER_FINITE = ("core::ops::range::Range<", "core::slice::iter::Iter<", "core::iter::adapters::rev::Rev<core::ops::range::Range<",
                "std::collections::hash::set::IntoIter<", "alloc::vec::into_iter::IntoIter<", "core::slice::iter::IterMut<",
@@ -28,7 +28,7 @@ def suffix_of_param(pr, e, depth=0, visiting=None):
     visiting = visiting if visiting is not None else set()
     if depth > 12:
         return False
-    e = strip_ref(e)
+    e = strip_ref(unq(e))
     while e[0] == "cast" and e[3].startswith("PointerCoercion"):
         e = strip_ref(e[1])
     if is_empty_slice(e):
@@ -63,6 +63,21 @@ def suffix_of_param(pr, e, depth=0, visiting=None):
         return suffix_of_param(pr, e[1][2][0], depth + 1, visiting)
     if e[0] == "call" and e[1] in ("core::ops::deref::Deref::deref",):
         return suffix_of_param(pr, e[2][0], depth + 1, visiting)
+    # slice pattern `[.., rest @ ..]`: rest = s[k..]
+    if e[0] in ("path", "proj") and e[2] and isinstance(e[2][-1], tuple) and e[2][-1][0] == "sub":
+        _, frm, to, from_end = e[2][-1]
+        if from_end and to == 0:
+            base = (e[0], e[1], tuple(e[2][:-1])) + tuple(e[3:])
+            return suffix_of_param(pr, base, depth + 1, visiting)
+        return False
+    sf = split_first_parts(e)
+    if sf is not None and sf[2] == 1:
+        return suffix_of_param(pr, sf[0], depth + 1, visiting)
+    # s.get(k..) / s.get(..) hands out a suffix (when it is Some)
+    if e[0] == "proj" and e[1][0] == "call" and e[1][1].endswith("<impl [T]>::get") and tuple(e[2]) == ("@Some", "0") and len(e[1][2]) == 2:
+        rng = strip_ref(e[1][2][1])
+        if rng[0] == "agg" and rng[1].endswith("RangeFrom::RangeFrom"):
+            return suffix_of_param(pr, e[1][2][0], depth + 1, visiting)
     # the second half of s.split_at(m) is s[m..]
     if e[0] == "proj" and e[1][0] == "call" and e[1][1] in SPLIT_AT and tuple(e[2]) == ("1",):
         return suffix_of_param(pr, e[1][2][0], depth + 1, visiting)
